@@ -185,10 +185,10 @@ impl Val for Date {
         self.to_string()
     }
     fn dur_until(&self, o: &Self) -> i128 {
-        self.duration_until(*o).as_nanos()
+        canon_ns(self.duration_until(*o))
     }
     fn dur_since(&self, o: &Self) -> i128 {
-        self.duration_since(*o).as_nanos()
+        canon_ns(self.duration_since(*o))
     }
     fn op_sub(&self, o: &Self) -> Span {
         *self - *o
@@ -230,10 +230,10 @@ impl Val for DateTime {
         self.to_string()
     }
     fn dur_until(&self, o: &Self) -> i128 {
-        self.duration_until(*o).as_nanos()
+        canon_ns(self.duration_until(*o))
     }
     fn dur_since(&self, o: &Self) -> i128 {
-        self.duration_since(*o).as_nanos()
+        canon_ns(self.duration_since(*o))
     }
     fn op_sub(&self, o: &Self) -> Span {
         *self - *o
@@ -272,10 +272,10 @@ impl Val for Time {
         self.to_string()
     }
     fn dur_until(&self, o: &Self) -> i128 {
-        self.duration_until(*o).as_nanos()
+        canon_ns(self.duration_until(*o))
     }
     fn dur_since(&self, o: &Self) -> i128 {
-        self.duration_since(*o).as_nanos()
+        canon_ns(self.duration_since(*o))
     }
     fn op_sub(&self, o: &Self) -> Span {
         *self - *o
@@ -318,10 +318,10 @@ impl Val for Timestamp {
         conv::fmt_ns(self.as_nanosecond())
     }
     fn dur_until(&self, o: &Self) -> i128 {
-        self.duration_until(*o).as_nanos()
+        canon_ns(self.duration_until(*o))
     }
     fn dur_since(&self, o: &Self) -> i128 {
-        self.duration_since(*o).as_nanos()
+        canon_ns(self.duration_since(*o))
     }
     fn op_sub(&self, o: &Self) -> Span {
         *self - *o
@@ -364,10 +364,10 @@ impl Val for Zoned {
         format!("{}({})", conv::fmt_ns(self.timestamp().as_nanosecond()), self.datetime())
     }
     fn dur_until(&self, o: &Self) -> i128 {
-        self.duration_until(o).as_nanos()
+        canon_ns(self.duration_until(o))
     }
     fn dur_since(&self, o: &Self) -> i128 {
-        self.duration_since(o).as_nanos()
+        canon_ns(self.duration_since(o))
     }
     fn op_sub(&self, o: &Self) -> Span {
         self - o
@@ -1145,6 +1145,27 @@ fn run_zone(r: &Report, t: &Tally, sec: &str, pair: &Pair, thorough: bool, is_re
     // the zone's range limits
     let (ts_min, ts_max) = (conv::ts_min_ns(), conv::ts_max_ns());
     run_set(&[ts_min, ts_min + 1, ts_min + DAY_NS, 0, ts_max - DAY_NS, ts_max - 1, ts_max]);
+}
+
+/// The exact nanosecond count of an absolute duration - provided the value is
+/// the canonical representation of that count: seconds and sub-second part of
+/// one sign, `as_secs`/`subsec_nanos` the quotient and remainder, and equal
+/// (`==`, `cmp`) to a duration built afresh from the same count. A
+/// denormalised value (24 h -500 ms for 23:59:59.5) has the right `as_nanos()`
+/// but prints, compares and hashes wrongly: it is mapped to a poison count so
+/// that the exact-distance comparison fails.
+fn canon_ns(d: jiff::SignedDuration) -> i128 {
+    let n = d.as_nanos();
+    let (s, f) = (d.as_secs(), d.subsec_nanos());
+    let q = (n / 1_000_000_000, n % 1_000_000_000);
+    let fresh = i64::try_from(q.0).ok().map(|qs| jiff::SignedDuration::new(qs, q.1 as i32));
+    let ok = s as i128 == q.0 && f as i128 == q.1 && !((s > 0 && f < 0) || (s < 0 && f > 0)) && fresh.map_or(false, |x| x == d && x.cmp(&d) == core::cmp::Ordering::Equal);
+    if ok {
+        n
+    } else {
+        // distinct from every real distance (|real| < 2^70)
+        (1i128 << 100) + s as i128 * 4 + (f as i128).signum()
+    }
 }
 
 fn main() {
